@@ -4,6 +4,7 @@ import copy
 from . import budget
 from .repo import tad, SNAP, NOSOL, debug_logging
 
+THRESHOLD_BY_ATTRIBUTE = False     # other solver thresholds are given to the constructor (False) or assigned to Solver.threshold afterwards (True)
 DEBUG_LOG = False      # set per shard by the sweep: every solve of the shard runs with the root logger at DEBUG (the tool's -l d)
 
 
@@ -64,7 +65,13 @@ def solve_reach_seam(game, prune, threshold=None, cpu_s=budget.DEFAULT_CPU_S, ma
         sg = tad.StochasticGame(prune_states=prune, **g)
         sg.check_game()
         state_list = sg.init_states()
-        solver = tad.Solver(state_list) if threshold is None else tad.Solver(state_list, threshold=threshold)
+        if threshold is None:
+            solver = tad.Solver(state_list)
+        elif THRESHOLD_BY_ATTRIBUTE:
+            solver = tad.Solver(state_list)
+            solver.threshold = threshold            # the public attribute, set between construction and solving
+        else:
+            solver = tad.Solver(state_list, threshold=threshold)
         strategies, _ = solver.solve_reachability(sg.transition_list, sg.final_states, prune)
         return [s.reach_probability for s in state_list], strategies
 
